@@ -69,7 +69,11 @@ type Contract struct {
 	Results  []string // for ext blocks: result names
 	File     string
 	Line     int
-	Asserts  map[string][]*Clause // anchored ghost asserts: "call:<name>[k]" etc. (reserved)
+	Anchors  []*Anchored
+	GhostInit []*GhostUpd
+	Invokes  []string
+	Uses     []string
+	Callback bool
 	NoAutoRecvNonNil bool
 }
 
@@ -82,9 +86,31 @@ type Lemma struct {
 	Goal  SExpr
 	Src   string
 	Induct string // variable to induct on ("" = direct)
+	Ctx    string // function whose parameters are the lemma's free names
+}
+
+type UFun struct {
+	Name   string
+	Params []string // parameter type texts ("_" = take the sort of the argument)
+	Result string
+	Pkg    string
+}
+
+type Anchored struct {
+	When   string // before / after
+	Callee string // name of the called function or method
+	Ord    int
+	Kind   string // ghost, assert, assume
+	Ghost  *GhostUpd
+	E      SExpr
+	Src    string
+	Props  []string
 }
 
 type PkgSpec struct {
+	Sorts     map[string]bool
+	UFuns     map[string]*UFun
+	Callbacks map[string]*Contract // "Heap.indexChanged"
 	Path      string
 	Macros    map[string]*Macro
 	Ghosts    map[string]*GhostField // "Struct.field"
@@ -93,10 +119,10 @@ type PkgSpec struct {
 	Axioms    []*Clause
 }
 
-var kwRe = regexp.MustCompile(`^(pure|pred|ghost|func|props|requires|ensures|panics|pensures|modifies|ghostparam|loop|ext|lemma|axiom|inline|trusted|decreases|ispure|params|results|end)\b`)
+var kwRe = regexp.MustCompile(`^(pure|pred|ghostinit|ghost|func|props|requires|ensures|panics|pensures|modifies|ghostparam|uses|loop|ext|lemma|axiom|inline|trusted|decreases|ispure|params|results|end|sort|ufun|callback|before|after|invokes)\b`)
 
 func loadPkgSpec(dir, pkgPath string) (*PkgSpec, error) {
-	ps := &PkgSpec{Path: pkgPath, Macros: map[string]*Macro{}, Ghosts: map[string]*GhostField{}, Contracts: map[string]*Contract{}}
+	ps := &PkgSpec{Path: pkgPath, Macros: map[string]*Macro{}, Ghosts: map[string]*GhostField{}, Contracts: map[string]*Contract{}, Sorts: map[string]bool{}, UFuns: map[string]*UFun{}, Callbacks: map[string]*Contract{}}
 	files, _ := filepath.Glob(filepath.Join(dir, "verif_contracts*.go"))
 	for _, f := range files {
 		data, err := os.ReadFile(f)
@@ -189,6 +215,87 @@ func (ps *PkgSpec) parseFile(file, data string) error {
 			sf := strings.SplitN(fs[0], ".", 2)
 			ps.Ghosts[fs[0]] = &GhostField{Struct: sf[0], Name: sf[1], Type: strings.TrimSpace(fs[1]), Pkg: ps.Path}
 			cur = nil
+		case "sort":
+			ps.Sorts[strings.TrimSpace(rest)] = true
+			cur = nil
+		case "ufun":
+			op := strings.Index(rest, "(")
+			cp := strings.LastIndex(rest, ")")
+			if op < 0 || cp < 0 {
+				return errf("bad ufun %q", t)
+			}
+			uf := &UFun{Name: strings.TrimSpace(rest[:op]), Result: strings.TrimSpace(rest[cp+1:]), Pkg: ps.Path}
+			for _, p := range splitTop(rest[op+1:cp], ',') {
+				p = strings.TrimSpace(p)
+				if p == "" {
+					continue
+				}
+				fs := strings.SplitN(p, " ", 2)
+				if len(fs) == 2 {
+					uf.Params = append(uf.Params, strings.TrimSpace(fs[1]))
+				} else {
+					uf.Params = append(uf.Params, "_")
+				}
+			}
+			ps.UFuns[uf.Name] = uf
+			cur = nil
+		case "ghostinit":
+			g, err := parseGhostUpd(rest)
+			if err != nil {
+				return errf("%v", err)
+			}
+			cur.GhostInit = append(cur.GhostInit, g)
+		case "invokes":
+			cur.Invokes = append(cur.Invokes, strings.Fields(rest)...)
+		case "before", "after":
+			// before call NAME[k]: ghost L := R | assert E | assume E
+			ci := strings.Index(rest, ":")
+			if ci < 0 || cur == nil {
+				return errf("bad anchored clause")
+			}
+			head := strings.Fields(rest[:ci])
+			if len(head) != 2 || head[0] != "call" {
+				return errf("anchor must be `call NAME[k]`")
+			}
+			an := &Anchored{When: kw, Callee: head[1]}
+			if bi := strings.Index(head[1], "["); bi >= 0 {
+				an.Callee = head[1][:bi]
+				an.Ord, _ = strconv.Atoi(strings.Trim(head[1][bi:], "[]"))
+			}
+			body := strings.TrimSpace(rest[ci+1:])
+			switch {
+			case strings.HasPrefix(body, "ghost "):
+				g, err := parseGhostUpd(strings.TrimSpace(body[6:]))
+				if err != nil {
+					return errf("%v", err)
+				}
+				an.Kind, an.Ghost, an.Src = "ghost", g, body
+			case strings.HasPrefix(body, "assert "), strings.HasPrefix(body, "assume "):
+				an.Kind = body[:6]
+				props, b := splitProps(strings.TrimSpace(body[7:]))
+				e, err := parseSpec(b)
+				if err != nil {
+					return errf("%v", err)
+				}
+				an.E, an.Src, an.Props = e, b, props
+			default:
+				return errf("bad anchored clause body %q", body)
+			}
+			cur.Anchors = append(cur.Anchors, an)
+		case "callback":
+			name := rest
+			var params []string
+			if i := strings.Index(rest, "("); i >= 0 {
+				name = strings.TrimSpace(rest[:i])
+				j := strings.Index(rest, ")")
+				for _, p := range strings.Split(rest[i+1:j], ",") {
+					if p = strings.TrimSpace(p); p != "" {
+						params = append(params, p)
+					}
+				}
+			}
+			cur = &Contract{Key: name, Pkg: ps.Path, Callback: true, Loops: map[int]*LoopSpec{}, File: file, Line: rl.line, Params: params}
+			ps.Callbacks[name] = cur
 		case "func", "ext":
 			name := rest
 			var params, results []string
@@ -273,6 +380,8 @@ func (ps *PkgSpec) parseFile(file, data string) error {
 				cur.Modifies = append(cur.Modifies, e)
 				cur.ModSrc = append(cur.ModSrc, part)
 			}
+		case "uses":
+			cur.Uses = append(cur.Uses, strings.Fields(strings.ReplaceAll(rest, ",", " "))...)
 		case "ghostparam":
 			fs := strings.SplitN(rest, " ", 2)
 			if len(fs) != 2 {
@@ -334,6 +443,8 @@ func (ps *PkgSpec) parseFile(file, data string) error {
 			for _, h := range head[1:] {
 				if strings.HasPrefix(h, "induct=") {
 					lm.Induct = strings.TrimPrefix(h, "induct=")
+				} else if strings.HasPrefix(h, "@") {
+					lm.Ctx = strings.TrimPrefix(h, "@")
 				} else {
 					lm.Props = append(lm.Props, h)
 				}
